@@ -22,7 +22,8 @@ META = {
         'len(input), a nested parser\'s own report, a constant backed by a successful read). R4: no size/count handed '
         'to a primitive can be negative (affine form over non-negative fields with dominating lower-bound guards), and '
         'every write to ParserBase._parsed_length is a checked quantity. R5: in every framing unit all bytes after the '
-        'declared length are governed by it (raw of that size or a sub-parser over it) and a frame is never empty.'),
+        'declared length are governed by it (raw of that size or a sub-parser over it) and a frame is never empty.'
+        ' R6: the consumed length a nested parse_immutable/_parse reports is bound and read by the caller. R7: array primitives that take items_size hand their item parsers a slice that ends at offset + items_size.'),
     'assumptions': ['ParserBase copies its input (converter=bytes): checked structurally in R2',
                     'slicing beyond the end of a bytes object is clamped by Python'],
     'trusted_base': ['python ast', 'sa.interp traces', 'sa.canon length links'],
